@@ -135,7 +135,9 @@ Arguments mkSt {c}. Arguments hd {c}. Arguments buf {c}. Arguments written {c}.
 Arguments gzipping {c}. Arguments gz {c}. Arguments gval {c}. Arguments w_hdrs {c}.
 Arguments sent {c}. Arguments err {c}.
 
-Record env := { is_head : bool; accept_enc : option bytes }.
+(* the request and the application setting: HEAD?, request.headers.get("Accept-Encoding") (None = absent),
+   Application(compress_response=...) (False: application.transforms is empty) *)
+Record env := { is_head : bool; accept_enc : option bytes; compress : bool }.
 
 (* RequestHandler.clear(): only Content-Type matters here (Server/Date are not touched by the transform) *)
 Definition init_hd : hdrs := [(K_CT, [b "text/html; charset=UTF-8"])].
@@ -144,8 +146,16 @@ Definition init_hd : hdrs := [(K_CT, [b "text/html; charset=UTF-8"])].
 Definition ae_gzip (e : env) : bool :=
   has_sub V_GZIP (match accept_enc e with Some v => v | None => [] end).
 
+(* without a transform instance there is no _gzipping flag; it is modelled as false *)
 Definition init (c : codec) (e : env) : st c :=
-  mkSt init_hd [] false (ae_gzip e) None [] None [] false.
+  mkSt init_hd [] false (compress e && ae_gzip e) None [] None [] false.
+
+(* statuses that cannot carry a body: RequestHandler.finish's test *)
+Definition bodiless (code : N) : bool :=
+  (code =? 204) || (code =? 304) || ((100 <=? code) && (code <? 200)).
+(* transform_first_chunk: `status_code not in (204, 304) and not (100 <= status_code < 200)` (fix 32796e6) *)
+Definition status_ok (code : N) : bool :=
+  negb ((code =? 204) || (code =? 304)) && negb ((100 <=? code) && (code <? 200)).
 
 (* GZipContentEncoding.transform_chunk *)
 Definition transform_chunk {c} (s : st c) (chunk : bytes) (finishing : bool) : st c * bytes :=
@@ -173,13 +183,14 @@ Definition vary_step (h : hdrs) : hdrs :=
 Definition ctype_of (h : hdrs) : bytes :=
   before_semi (match hget K_CT h with Some v => v | None => [] end).
 (* the decision taken in transform_first_chunk (given that __init__ saw "gzip") *)
-Definition gzip_decision (h : hdrs) (chunk : bytes) (finishing : bool) : bool :=
-  compressible (ctype_of h) && (negb finishing || (MIN_LENGTH <=? length chunk)%nat) && negb (hmem K_CE h).
+Definition gzip_decision (h : hdrs) (code : N) (chunk : bytes) (finishing : bool) : bool :=
+  compressible (ctype_of h) && (negb finishing || (MIN_LENGTH <=? length chunk)%nat) && negb (hmem K_CE h)
+  && status_ok code.
 
 (* GZipContentEncoding.transform_first_chunk *)
-Definition transform_first_chunk {c} (s : st c) (chunk : bytes) (finishing : bool) : st c * bytes :=
+Definition transform_first_chunk {c} (s : st c) (code : N) (chunk : bytes) (finishing : bool) : st c * bytes :=
   let h1 := vary_step (hd s) in
-  let g1 := if gzipping s then gzip_decision h1 chunk finishing else false in
+  let g1 := if gzipping s then gzip_decision h1 code chunk finishing else false in
   if g1 then
     let h2 := hset K_CE V_GZIP h1 in
     let '(g0, o0) := gz_open c in
@@ -192,17 +203,17 @@ Definition transform_first_chunk {c} (s : st c) (chunk : bytes) (finishing : boo
   else
     (mkSt h1 (buf s) (written s) false (gz s) (gval s) (w_hdrs s) (sent s) (err s), chunk).
 
-(* RequestHandler.flush(include_footers) with transforms = [GZipContentEncoding] *)
-Definition flush {c} (e : env) (finishing : bool) (s : st c) : st c :=
+(* RequestHandler.flush(include_footers); transforms = [GZipContentEncoding] or [] *)
+Definition flush {c} (e : env) (code : N) (finishing : bool) (s : st c) : st c :=
   let chunk := concat (buf s) in
   let s0 := mkSt (hd s) [] (written s) (gzipping s) (gz s) (gval s) (w_hdrs s) (sent s) (err s) in
   if negb (written s) then
     let s1 := mkSt (hd s0) [] true (gzipping s0) (gz s0) (gval s0) (w_hdrs s0) (sent s0) (err s0) in
-    let '(s2, chunk') := transform_first_chunk s1 chunk finishing in
+    let '(s2, chunk') := if compress e then transform_first_chunk s1 code chunk finishing else (s1, chunk) in
     let chunk'' := if is_head e then [] else chunk' in
     mkSt (hd s2) (buf s2) (written s2) (gzipping s2) (gz s2) (gval s2) (Some (hd s2)) (sent s2 ++ [chunk'']) (err s2)
   else
-    let '(s2, chunk') := transform_chunk s0 chunk finishing in
+    let '(s2, chunk') := if compress e then transform_chunk s0 chunk finishing else (s0, chunk) in
     if is_head e then s2
     else mkSt (hd s2) (buf s2) (written s2) (gzipping s2) (gz s2) (gval s2) (w_hdrs s2) (sent s2 ++ [chunk']) (err s2).
 
@@ -212,40 +223,61 @@ Inductive op :=
 | AddH (name value : bytes)      (* add_header *)
 | ClearH (name : bytes)          (* clear_header *)
 | Write (chunk : bytes)          (* write *)
-| Flush.                         (* flush() *)
+| Flush                          (* flush() *)
+| Status (code : N).             (* set_status(code) *)
 
 Definition set_hd {c} (s : st c) (h : hdrs) : st c :=
   mkSt h (buf s) (written s) (gzipping s) (gz s) (gval s) (w_hdrs s) (sent s) (err s).
 Definition push {c} (s : st c) (d : bytes) : st c :=
   mkSt (hd s) (buf s ++ [d]) (written s) (gzipping s) (gz s) (gval s) (w_hdrs s) (sent s) (err s).
 
+Definition clear_header (k : bytes) (h : hdrs) : hdrs := if hmem k h then hdel k h else h.
 Definition hdr_op (o : op) (h : hdrs) : hdrs :=
   match o with
   | SetH n v => hset (norm n) v h
   | AddH n v => hadd (norm n) v h
-  | ClearH n => if hmem (norm n) h then hdel (norm n) h else h
+  | ClearH n => clear_header (norm n) h
   | _ => h
   end.
 
-Definition step {c} (e : env) (s : st c) (o : op) : st c :=
+(* the handler: the fields above, _status_code, and the status code handed to write_headers
+   (meaningful once the header block is written) *)
+Record hs (c : codec) := mkHs { core : st c; code : N; wcode : N }.
+Arguments mkHs {c}. Arguments core {c}. Arguments code {c}. Arguments wcode {c}.
+
+Definition do_flush {c} (e : env) (finishing : bool) (s : hs c) : hs c :=
+  mkHs (flush e (code s) finishing (core s)) (code s) (if written (core s) then wcode s else code s).
+
+Definition step {c} (e : env) (s : hs c) (o : op) : hs c :=
   match o with
-  | Write d => push s d
-  | Flush => flush e false s
-  | _ => set_hd s (hdr_op o (hd s))
+  | Write d => mkHs (push (core s) d) (code s) (wcode s)
+  | Flush => do_flush e false s
+  | Status n => mkHs (core s) n (wcode s)
+  | _ => mkHs (set_hd (core s) (hdr_op o (hd (core s)))) (code s) (wcode s)
   end.
 
-(* RequestHandler.finish(chunk): status 200, no If-None-Match (the Etag header it adds is not
-   read by the transform and is not observed) *)
-Definition finish {c} (e : env) (fin : option bytes) (s : st c) : st c :=
-  let s1 := match fin with Some d => push s d | None => s end in
-  let s2 := if written s1 then s1
-            else if hmem K_CL (hd s1) then s1
-            else set_hd s1 (hset K_CL (dec_len (concat (buf s1))) (hd s1)) in
-  flush e true s2.
+(* RequestHandler._clear_representation_headers *)
+Definition K_CLANG := b "Content-Language".
+Definition clear_repr (h : hdrs) : hdrs :=
+  clear_header K_CT (clear_header K_CLANG (clear_header K_CE h)).
 
-Definition exec {c} (e : env) (prog : list op) (s : st c) : st c := fold_left (step e) prog s.
-Definition run (c : codec) (e : env) (prog : list op) (fin : option bytes) : st c :=
-  finish e fin (exec e prog (init c e)).
+(* RequestHandler.finish(chunk), no If-None-Match (the Etag header it adds for a 200 is not read by
+   the transform and is not observed).  None = the `assert not self._write_buffer` failed. *)
+Definition finish {c} (e : env) (fin : option bytes) (s : hs c) : option (hs c) :=
+  let s1 := match fin with Some d => step e s (Write d) | None => s end in
+  let k := core s1 in
+  if written k then Some (do_flush e true s1)
+  else if bodiless (code s1) then
+    match buf k with
+    | [] => Some (do_flush e true (mkHs (set_hd k (clear_repr (hd k))) (code s1) (wcode s1)))
+    | _ :: _ => None
+    end
+  else if hmem K_CL (hd k) then Some (do_flush e true s1)
+  else Some (do_flush e true (mkHs (set_hd k (hset K_CL (dec_len (concat (buf k))) (hd k))) (code s1) (wcode s1))).
+
+Definition exec {c} (e : env) (prog : list op) (s : hs c) : hs c := fold_left (step e) prog s.
+Definition run (c : codec) (e : env) (prog : list op) (fin : option bytes) : option (hs c) :=
+  finish e fin (exec e prog (mkHs (init c e) 200 200)).
 
 (* ---------- what is assumed of a gzip codec ----------
    A history of calls on one GzipFile: write(d) / flush().  [gz_run] threads the state and
